@@ -214,8 +214,30 @@ def cases(tier):
         yield case
 
 
+def empty_container_cases(tier):
+    """childless containers (legal Gherkin, and the summary must still count their siblings): a scenario without
+    steps, an outline whose examples have no rows, a rule without scenarios - each followed by ordinary siblings"""
+    e_s = P.S(())
+    e_o = ("O", (), 1, (((), ()),))
+    e_r = P.R(())
+    full = [P.S(("pass", "pass")), P.O((("pass",), ("pass",)))]
+    feats = []
+    for e in (e_s, e_o):
+        feats.append(P.F((e, full[0], full[1])))
+        feats.append(P.F((full[0], e, full[1]), bg=("pass",)))
+        feats.append(P.F((full[0], P.R((e, full[0], full[1]), bg=("pass",)))))
+    feats.append(P.F((full[0], e_r, P.R((full[0], full[1])))))
+    feats.append(P.F((full[0], P.R((e_s,)), P.R((e_o, full[0])))))
+    for f in feats:
+        for nd, pr in P.deviations((f,), 1, outcomes=("fail", "error", "undefined", "skip")):
+            for cfg in ("default", "stop", "dry"):
+                yield ((pr[0], P.SECOND_FEATURE), cfg, None, None, False)
+                yield ((P.SECOND_FEATURE, pr[0]), cfg, None, None, False)
+
+
 def run(ctx):
     ctx.bounds = {"runs": "C01 enumeration" + (" restricted to shapes with <=3 step positions (faults: <=2)" if ctx.quick else ""),
                   "implementations": 3, "formats": 5}
     ctx.sweep(run_case, cases(ctx.tier), chunk=32, name="runs x (reporter + walked collector) x 5 formats")
+    ctx.sweep(run_case, empty_container_cases(ctx.tier), chunk=32, name="childless containers with siblings")
     ctx.guard(len(ctx.outcomes) > 20, "at least 20 distinct status mixes")
